@@ -68,6 +68,9 @@ SPEC = r'''
                 &&& (r is Some ==> final(self).cur() =~= seq![x])                                                     // #obl:session.item_starts_new_session_after_gap
                 &&& (r is None ==> final(self).cur() =~= old(self).cur().push(x))                                     // #obl:session.item_appended_in_arrival_order
             }),
+            // the gap is measured from the LAST element of the session to the clock reading of this call, which becomes the new `last`
+            (se_val(el) is Some && old(self).w is Some) ==>
+                ((r is Some) == elapsed(final(self).w->0.last, old(self).w->0.last, old(self).gap)),                  // #obl:session.gap_measured_from_the_last_element
             // end of iteration: the open session is flushed and nothing is carried over
             (el is FlushAndRestart || el is Terminate) ==> final(self).w is None && (r is Some) == (old(self).w is Some),   // #obl:session.end_flushes_open_session_and_carries_nothing_over
             // other elements leave the session alone unless the gap elapsed
